@@ -289,17 +289,30 @@ Definition bounds_name (v : var) (override : option string) : option string :=
             end
   end.
 
+(* fix3-1: when the bounds variable is given explicitly (formula terms route) and the
+   variable also has a bounds attribute of its own that names another variable, that
+   attribute is checked too, for the report only: _check_bounds(parent, ncvar, "bounds", own) *)
+Definition own_bounds_msgs (ds : ads) (n : string) (v : var) (override : option string)
+  : res (list msg) :=
+  match override, attr v "bounds" with
+  | Some b, Some own =>
+      if str_empty own || String.eqb own b then ROk []
+      else r <- check_bounds ds n own ;; ROk (snd r)
+  | _, _ => ROk []
+  end.
+
 Definition create_bounded (ds : ads) (t : ctype) (n : string) (override : option string)
   : res (cons * list msg) :=
   v <- get_var ds n ;;
+  pre <- own_bounds_msgs ds n v override ;;
   match bounds_name v override with
-  | None => ROk (mkCons t n None, [])
+  | None => ROk (mkCons t n None, pre)
   | Some b =>
-      if str_empty b then ROk (mkCons t n None, [])
+      if str_empty b then ROk (mkCons t n None, pre)
       else
         r <- check_bounds ds n b ;;
         let '(ok, ms) := r in
-        ROk (mkCons t n (if ok then Some b else None), ms)
+        ROk (mkCons t n (if ok then Some b else None), pre ++ ms)
   end.
 
 (* ------------------------------------------------------------------ dimension coordinates *)
@@ -574,14 +587,17 @@ Definition check_grid_mapping (ds : ads) (field : string) (parsed : list (string
   end.
 
 (* keys = ncvar_to_key so far; vertical = coordinates that own a formula-terms reference *)
-Fixpoint gm_pass (field : string) (parsed : list (string * list string)) (keys vertical : list string)
-  : list cref * list string * list msg :=
+(* always_ref: the grid mapping variable counts as referenced also when it only gave the datum
+   of a vertical coordinate reference (no coordinate reference of its own; /repo de4431b) *)
+Fixpoint gm_pass (always_ref : bool) (field : string) (parsed : list (string * list string))
+                 (keys vertical : list string) : list cref * list string * list msg :=
   match parsed with
   | [] => ([], [], [])
   | (gm, coords) :: r =>
       let unused := map (fun c => (c, WGmCoord, RNotUsed)) (filter (fun c => negb (mem c keys)) coords) in
       let cs := filter (fun c => mem c keys) coords in
-      let '(cr, rf) :=
+      (* cr: the new coordinate reference; kf: the new entry of ncvar_to_key *)
+      let '(cr, kf) :=
         match cs with
         | [] => ([mkCref (Some gm) None []], [gm])
         | _ => let cs' := filter (fun c => negb (mem c vertical)) cs in
@@ -590,7 +606,8 @@ Fixpoint gm_pass (field : string) (parsed : list (string * list string)) (keys v
                | _ => ([mkCref (Some gm) (Some cs') []], [gm])
                end
         end in
-      let '(crs, refs, ms) := gm_pass field r (rf ++ keys) vertical in
+      let rf := if always_ref then [gm] else kf in
+      let '(crs, refs, ms) := gm_pass always_ref field r (kf ++ keys) vertical in
       (cr ++ crs, rf ++ refs, unused ++ ms)
   end.
 
@@ -908,6 +925,14 @@ Record fskel := mkF {
 Definition opt_pass {A} (o : option string) (dflt : A) (f : string -> res A) : res A :=
   match o with Some s => f s | None => ROk dflt end.
 
+(* a variable that is the value of several formula terms is inserted once, the first time
+   (g["domain_ancillary_key"], per field; /repo 0a2c931) *)
+Fixpoint dedup_anc (seen : list string) (l : list cons) : list cons :=
+  match l with
+  | [] => []
+  | c :: r => if mem (c_ncvar c) seen then dedup_anc seen r else c :: dedup_anc (c_ncvar c :: seen) r
+  end.
+
 (* the passes of _create_field_or_domain that follow the coordinates: they see the
    coordinate constructs, not the messages so far.
    Result: constructs, coordinate references, cell methods, messages, referenced variables *)
@@ -915,7 +940,8 @@ Definition field_rest (strict : bool) (ds : ads) (v : var) (fdims : list string)
   : res (list cons * list cref * list cmeth * list msg * list string) :=
   let field := v_name v in
   fp <- ft_pass strict ds field fdims coords ;;
-  let '(ancs, ftrefs, ftms) := fp in
+  let '(ancs0, ftrefs, ftms) := fp in
+  let ancs := if strict then ancs0 else dedup_anc [] ancs0 in
   let keys := map c_ncvar (coords ++ ancs) in
   let vertical := flat_map (fun r => match r_coords r with Some l => l | None => [] end) ftrefs in
   let '(gmrefs, gmvars, gmms) :=
@@ -924,7 +950,7 @@ Definition field_rest (strict : bool) (ds : ads) (v : var) (fdims : list string)
     | Some s =>
         let parsed := parse_x s in
         let '(ok, ms) := check_grid_mapping ds field parsed in
-        if ok then let '(crs, rf, ms2) := gm_pass field parsed keys vertical in (crs, rf, ms ++ ms2)
+        if ok then let '(crs, rf, ms2) := gm_pass (negb strict) field parsed keys vertical in (crs, rf, ms ++ ms2)
         else ([], [], ms)
     end in
   mp <- opt_pass (attr v "cell_measures") ([], [])
